@@ -1,107 +1,8 @@
-import Hive.Proofs.SafeMath64
-/-! SafeMulInt64: the sign bookkeeping around a 128-bit unsigned multiplication. -/
+import Hive.Proofs.SafeMathLemmas
+import Hive.Gen.C19_SafeMath
+/-! SafeMulInt64 (the sign bookkeeping around a 128-bit unsigned multiplication): the definition generated from core/safemath/safe_math.go meets the specification, for every width and signedness. -/
 namespace Hive.GoInt
 open Hive.Gen.SafeMath IntTy
-
-theorem i64_wrap (z : Int) : IntTy.i64.wrap z =
-    if z % 18446744073709551616 < 9223372036854775808 then z % 18446744073709551616
-    else z % 18446744073709551616 - 18446744073709551616 := by
-  have h1 : (2 : Int) ^ (64 - 1) = 9223372036854775808 := by decide
-  simp only [wrap, i64, modulus, pow64, h1, if_true]
-
-theorem u64_wrap (z : Int) : IntTy.u64.wrap z = z % 18446744073709551616 := by
-  simp only [wrap, u64, modulus, pow64, Bool.false_eq_true, if_false]
-
-/-- `(z >> 63) & 1 == 1` tests the sign of an int64. -/
-theorem signBit (z : Int) (hz : -9223372036854775808 ≤ z ∧ z < 9223372036854775808) :
-    decide (IntTy.i64.and (IntTy.i64.shr z 63) 1 = 1) = decide (z < 0) := by
-  have h63 : (2 : Int) ^ (63 : Int).toNat = 9223372036854775808 := by decide
-  unfold IntTy.shr
-  rw [h63]
-  by_cases hneg : z < 0
-  · have : z / 9223372036854775808 = -1 := by omega
-    rw [this]
-    have : IntTy.i64.and (-1) 1 = 1 := by decide
-    simp [this, hneg]
-  · have : z / 9223372036854775808 = 0 := by omega
-    rw [this]
-    have : IntTy.i64.and 0 1 = 0 := by decide
-    simp [this, hneg]
-
-theorem i64_wrap_range (z : Int) :
-    -9223372036854775808 ≤ IntTy.i64.wrap z ∧ IntTy.i64.wrap z < 9223372036854775808 := by
-  rw [i64_wrap]; split <;> omega
-
-/-- Tail of SafeMulInt64 when the product is expected to be positive (`resultSign = 1`). -/
-theorem tailPos (P : Int) (hP : 0 < P) :
-    (if decide (P / 18446744073709551616 ≠ 0) = true then Res.overflow
-      else if decide (IntTy.i64.and (IntTy.i64.shr (IntTy.i64.mul (IntTy.i64.wrap (P % 18446744073709551616)) 1) 63) 1 = 1) = true
-        then Res.overflow
-        else Res.ok (IntTy.i64.mul (IntTy.i64.wrap (P % 18446744073709551616)) 1))
-      = exact IntTy.i64 P := by
-  unfold exact
-  simp only [i64_inRange]
-  have hmul : IntTy.i64.mul (IntTy.i64.wrap (P % 18446744073709551616)) 1
-      = IntTy.i64.wrap (P % 18446744073709551616) := by
-    unfold IntTy.mul
-    rw [Int.mul_one, i64_wrap, i64_wrap]
-    split <;> omega
-  rw [hmul, signBit _ (i64_wrap_range _)]
-  by_cases hhi : P / 18446744073709551616 = 0
-  · have hlo : P % 18446744073709551616 = P := by omega
-    rw [hlo, i64_wrap]
-    by_cases hsmall : P < 9223372036854775808
-    · have h1 : P % 18446744073709551616 = P := by omega
-      have h2 : ¬ P < 0 := by omega
-      have h3 : -9223372036854775808 ≤ P := by omega
-      simp [hhi, h1, hsmall, h2, h3]
-    · have h1 : P % 18446744073709551616 = P := by omega
-      have h2 : P - 18446744073709551616 < 0 := by omega
-      have h3 : ¬ (-9223372036854775808 ≤ P ∧ P < 9223372036854775808) := by omega
-      simp [hhi, h1, hsmall, h2, h3]
-  · have h3 : ¬ (-9223372036854775808 ≤ P ∧ P < 9223372036854775808) := by omega
-    simp [hhi, h3]
-
-/-- Tail of SafeMulInt64 when the product is expected to be negative (`resultSign = -1`). -/
-theorem tailNeg (P : Int) (hP : 0 < P) :
-    (if decide (P / 18446744073709551616 ≠ 0) = true then Res.overflow
-      else if (!decide (IntTy.i64.and (IntTy.i64.shr (IntTy.i64.mul (IntTy.i64.wrap (P % 18446744073709551616)) (-1)) 63) 1 = 1)) = true
-        then Res.overflow
-        else Res.ok (IntTy.i64.mul (IntTy.i64.wrap (P % 18446744073709551616)) (-1)))
-      = exact IntTy.i64 (-P) := by
-  unfold exact
-  simp only [i64_inRange]
-  have hrange : -9223372036854775808 ≤ IntTy.i64.mul (IntTy.i64.wrap (P % 18446744073709551616)) (-1) ∧
-      IntTy.i64.mul (IntTy.i64.wrap (P % 18446744073709551616)) (-1) < 9223372036854775808 := by
-    unfold IntTy.mul; exact i64_wrap_range _
-  rw [signBit _ hrange]
-  by_cases hhi : P / 18446744073709551616 = 0
-  · have hlo : P % 18446744073709551616 = P := by omega
-    have hval : IntTy.i64.mul (IntTy.i64.wrap (P % 18446744073709551616)) (-1) =
-        if P ≤ 9223372036854775808 then -P else 18446744073709551616 - P := by
-      unfold IntTy.mul
-      rw [hlo, i64_wrap P, i64_wrap]
-      split <;> split <;> split <;> omega
-    rw [hval]
-    by_cases hsmall : P ≤ 9223372036854775808
-    · have h2 : -P < 0 := by omega
-      have h3 : (-9223372036854775808 ≤ -P ∧ -P < 9223372036854775808) := by omega
-      simp [hhi, hsmall, h2, h3, hP]
-    · have h2 : ¬ 18446744073709551616 - P < 0 := by omega
-      have h3 : ¬ (-9223372036854775808 ≤ -P ∧ -P < 9223372036854775808) := by omega
-      simp [hhi, hsmall, h2, h3]
-  · have h3 : ¬ (-9223372036854775808 ≤ -P ∧ -P < 9223372036854775808) := by omega
-    rw [if_neg h3]
-    simp [hhi]
-
-/-- `uint64(-x)` of a negative int64 is its magnitude (also for MinInt64, where `-x` wraps). -/
-theorem abs_of_neg (x : Int) (hx : -9223372036854775808 ≤ x ∧ x < 0) : IntTy.u64.wrap (IntTy.i64.neg x) = -x := by
-  unfold IntTy.neg
-  rw [u64_wrap, i64_wrap]
-  split <;> omega
-
-theorem abs_of_pos (x : Int) (hx : 0 < x ∧ x < 9223372036854775808) : IntTy.u64.wrap x = x := by
-  rw [u64_wrap]; omega
 
 theorem safeMulInt64_exact (x y : Int) (hx : IntTy.i64.InRange x) (hy : IntTy.i64.InRange y) :
     SafeMulInt64 x y = exact IntTy.i64 (x * y) := by
